@@ -98,7 +98,7 @@ Record question := mkQ { q_name : bytes; q_type : N; q_class : N }.
 Definition decodeQuestion (p : slice) (index : Z) (buffer : slice) : res (question * nat) :=
   qd <- be16_at p 4 ;;
   if negb (qd =? 1) then Err EParseFrame
-  else if (Z.of_nat (len p) <? index + 6)%Z then Err EParseFrame
+  else if (Z.of_nat (len p) <? index + 5)%Z then Err EParseFrame
   else
     r <- decodeNameZ p index (buf_of buffer) ;;
     let name := fst (fst r) in
